@@ -440,7 +440,49 @@ func init() {
 		return true
 	})
 	reg("fmt.Sprintf", func(ex *Exec, st *State, fv FuncV, args []Value, res ssa.Value, at ssa.Instruction) bool {
-		setRes(st, res, StrV{segs: []Seg{{op: "sprintf", args: ex.fmtArgs(st, args)}}})
+		fa := ex.fmtArgs(st, args)
+		// all-concrete call: evaluate by the host
+		if f, ok := fa[0].(StrV); ok {
+			if fs, okf := f.concrete(); okf {
+				var hostArgs []interface{}
+				allc := true
+				for _, a := range fa[1:] {
+					iv, isI := a.(IfaceV)
+					if !isI || iv.t == nil {
+						allc = false
+						break
+					}
+					switch x := iv.v.(type) {
+					case StrV:
+						if c, okc := x.concrete(); okc {
+							hostArgs = append(hostArgs, c)
+						} else {
+							allc = false
+						}
+					case *Term:
+						if !x.isConst {
+							allc = false
+						} else if x.w == 0 {
+							hostArgs = append(hostArgs, x.v == 1)
+						} else if _, sg, _ := intInfo(iv.t); sg {
+							hostArgs = append(hostArgs, sext(x.v, x.w))
+						} else {
+							hostArgs = append(hostArgs, x.v)
+						}
+					default:
+						allc = false
+					}
+					if !allc {
+						break
+					}
+				}
+				if allc {
+					setRes(st, res, litStr(fmt.Sprintf(fs, hostArgs...)))
+					return true
+				}
+			}
+		}
+		setRes(st, res, StrV{segs: []Seg{{op: "sprintf", args: fa}}})
 		return true
 	})
 	reg("fmt.Sprint", func(ex *Exec, st *State, fv FuncV, args []Value, res ssa.Value, at ssa.Instruction) bool {
